@@ -169,6 +169,7 @@ func triggerRaces(c *Ctx) {
 				}
 				fire(2, 0)
 				if !waitFor(func() bool { return uint64(ml.State().Height()) == 2 && uint64(ml.State().View()) >= 1 }, 1500*time.Millisecond) {
+					c.Violation("C05", "view-never-left", fmt.Sprintf("the election timeout of (2,0) fired while this node, leading (2,0), sat in RequestNewBlockProposal and an older trigger was still waiting in the worker's slot: 1.5 s later the node is at %s — it never leaves the view, so neither this leader's view nor the next one can end in a commit with it", pos()), "trigger-race "+kind)
 					c.Violation("C19", "election-trigger-lost", fmt.Sprintf("the trigger of (1,0) arrived while the worker was inside the commit callback of height 1 and was still waiting in its slot when the trigger of (2,0) arrived (the worker in RequestNewBlockProposal of (2,0), context cancelled: %v): 1.5 s later the node is at %s, not in view 1 of height 2", atomic.LoadInt32(&sawDone) == 1, pos()), "trigger-race "+kind)
 				}
 			case "stale-trigger-while-elected":
